@@ -20,7 +20,7 @@ M = [
  ("C05","freshness-tenfold","identity_provider.go","if req.Request.IssueInstant.Add(MaxIssueDelay).Before(req.Now) {","if req.Request.IssueInstant.Add(10 * MaxIssueDelay).Before(req.Now) {"),
  ("C06","recipient-from-request","identity_provider.go","\t\t\t\t\t\tRecipient:    req.ACSEndpoint.Location,","\t\t\t\t\t\tRecipient:    firstSet(req.Request.AssertionConsumerServiceURL, req.ACSEndpoint.Location),"),
  ("C16","no-valid-methods","samlsp/session_jwt.go","\tparser := jwt.Parser{\n\t\tValidMethods: []string{c.SigningMethod.Alg()},\n\t}\n\tclaims := JWTSessionClaims{}","\tparser := jwt.Parser{}\n\tclaims := JWTSessionClaims{}"),
- ("C16","no-session-marker","samlsp/session_jwt.go","\tif !claims.SAMLSession {\n\t\treturn nil, errors.New(\"expected saml-session\")\n\t}\n",""),
+ ("C16","no-session-marker","samlsp/session_jwt.go","\tif !claims.SAMLSession {\n\t\treturn nil, errors.New(\"expected saml-session\")\n\t}\n","\tif !claims.SAMLSession {\n\t\t_ = errors.New(\"expected saml-session\")\n\t}\n"),
  ("C17","tracking-lifetime-x1000","samlsp/new.go","\t\tMaxAge:        saml.MaxIssueDelay,\n\t\tKey:           opts.Key,","\t\tMaxAge:        saml.MaxIssueDelay * 1000,\n\t\tKey:           opts.Key,"),
  ("C18","signature-optional","service_provider.go","\tif err := sp.validateSignature(doc.Root()); err != nil {\n\t\tretErr.PrivateErr = err\n\t\treturn retErr\n\t}\n\n\tvar resp LogoutResponse\n\tif err := unmarshalElement(doc.Root(), &resp); err != nil {\n\t\tretErr.PrivateErr = err\n\t\treturn retErr\n\t}\n\treturn sp.validateLogoutResponse(&resp)\n}\n\n// ValidateLogoutResponseRedirect","\tif err := sp.validateSignature(doc.Root()); err != nil && err != errSignatureElementNotPresent {\n\t\tretErr.PrivateErr = err\n\t\treturn retErr\n\t}\n\n\tvar resp LogoutResponse\n\tif err := unmarshalElement(doc.Root(), &resp); err != nil {\n\t\tretErr.PrivateErr = err\n\t\treturn retErr\n\t}\n\treturn sp.validateLogoutResponse(&resp)\n}\n\n// ValidateLogoutResponseRedirect"),
  ("C18","destination-unchecked","service_provider.go","\tif resp.Destination != sp.SloURL.String() {\n\t\treturn fmt.Errorf(\"`Destination` does not match SloURL (expected %q)\", sp.SloURL.String())\n\t}\n",""),
